@@ -34,6 +34,8 @@ RULE = (
 ASSUMPTIONS = [
     "data names are unique inside a hole (the hole's 'Property:<name>' map cannot hold two); names are shared between holes",
     "new tables in one hole use depths that are not collocated with an existing table of that hole",
+    "a data name stands for one primitive type across the holes of a group (the concatenated arrays are keyed by name): names carry their type in a prefix",
+    "a hole has at most one zero-length depth table and one zero-length interval table (two empty tables are trivially collocated)",
     "'hole order' of the group table is the order of the association's index rows by start offset (what the table itself defines)",
 ]
 TRACE = bool(os.environ.get("GVM_TRACE"))
@@ -73,6 +75,14 @@ class Model:
 
     def fresh(self, n, rng, nan=True, kind="float"):
         self.tag += 1
+        if kind == "int":
+            return (self.tag * 64 + np.arange(n)).astype("int32")
+        if kind == "text":
+            return np.array([f"s{self.tag}_{i}" for i in range(n)], dtype="U12") if n else np.array([], dtype="U12")
+        if kind == "referenced":
+            return np.array([rng.randint(1, 3) for _ in range(n)], dtype="int32")
+        if kind == "bool":
+            return np.array([rng.random() < 0.5 for _ in range(n)], dtype=bool)
         v = (self.tag * 64 + np.arange(n)).astype(float)
         if nan and n > 1 and rng.random() < 0.4:
             v[rng.randrange(n)] = np.nan
@@ -90,6 +100,33 @@ class Model:
                 yield pg, nm, v
 
 
+KIND_BY_PREFIX = {"Au": "float", "Cu": "float", "Zn": "int", "Pb": "text", "Ag": "referenced", "Fe": "bool", "Rf": "float", "Ri": "int", "Rt": "text", "Rr": "referenced", "Rb": "bool", "Pu": "float"}
+
+
+def kind_of_name(name):
+    return KIND_BY_PREFIX.get(name[:2], "float")
+
+
+def kind_of_values(v):
+    k = np.asarray(v).dtype.kind
+    if k in "US":
+        return "text"
+    if k == "b":
+        return "bool"
+    if k in "iu":
+        return "referenced" if len(v) and set(np.asarray(v).tolist()) <= {1, 2, 3} else "int"
+    return "float"
+
+
+def spec_for(vals, kind):
+    """The add_data entry for values of a kind."""
+    if kind == "text":
+        return {"values": vals.copy(), "type": "text"}
+    if kind == "referenced":
+        return {"values": vals.astype("uint32"), "type": "referenced", "value_map": {1: "A", 2: "B", 3: "C"}}
+    return {"values": vals.copy()}
+
+
 def nloc(t):
     """Number of rows of a table (0 for a group without location data)."""
     return len(next(iter(t["loc"].values()))) if t["loc"] else 0
@@ -101,6 +138,8 @@ def eq(a, b):
     a, b = np.asarray(a), np.asarray(b)
     if a.shape != b.shape:
         return False
+    if a.dtype.kind in "USO" or b.dtype.kind in "USO":
+        return [s(x) for x in a.tolist()] == [s(x) for x in b.tolist()]
     try:
         return bool(np.array_equal(a.astype(float), b.astype(float), equal_nan=True))
     except (TypeError, ValueError):
@@ -235,11 +274,15 @@ class Driver:
                 for c in cols:
                     exp = t["loc"].get(c, t["props"].get(c))
                     if exp is None:
+                        if kind_of_name(c) != "float":
+                            rec.see("table-nonfloat-filler-not-judged")
+                            continue  # the filler of a missing non-float column is the data type's no-data value: not modelled
                         exp = np.full(n, np.nan)
                     elif len(exp) < n:
                         exp = np.r_[exp, np.full(n - len(exp), np.nan)]
-                    rec.check("C04.table", eq(np.asarray(rows[c], dtype=float), exp), op=where, cls="rows", attr=amb,
-                              detail=f"table {pg!r} hole {self.m.holes[u]['name']} column {c!r}: {short(repr(np.asarray(rows[c], dtype=float).tolist()), 160)}; model {short(repr(np.asarray(exp).tolist()), 160)}")
+                    got = np.asarray(rows[c].tolist())
+                    rec.check("C04.table", eq(got, exp), op=where, cls="rows", attr=amb,
+                              detail=f"table {pg!r} hole {self.m.holes[u]['name']} column {c!r}: {short(repr(got.tolist()), 160)}; model {short(repr(np.asarray(exp).tolist()), 160)}")
             rec.see("tables-judged")
 
     def judge_file(self, where):
@@ -339,8 +382,9 @@ class Driver:
                             rec.check("C04.index-rows", len(v) == 0, op=where, cls="data", attr=taint or "missing", detail=f"label {label!r}: no index row for hole {self.m.holes[u]['name']} ({len(v)} values in the model)")
                             continue
                         r = mine[0]
-                        sl = np.asarray(arr[int(r["Start index"]): int(r["Start index"]) + int(r["Size"])], dtype=float)
-                        sl = np.where(np.isclose(sl, 1.175494351e-38, rtol=1e-6, atol=0), np.nan, sl)
+                        sl = np.asarray(arr[int(r["Start index"]): int(r["Start index"]) + int(r["Size"])])
+                        if sl.dtype.kind == "f":
+                            sl = np.where(np.isclose(sl, 1.175494351e-38, rtol=1e-6, atol=0), np.nan, sl.astype(float))
                         rec.check("C04.file-values", eq(sl, v), op=where, cls="data", attr=taint, detail=f"label {label!r} slice of hole {self.m.holes[u]['name']}: {short(repr(sl.tolist()), 160)}; model {short(repr(v.tolist()), 160)}")
             for u in live_holes:
                 for nm in self.m.names(u):
@@ -389,17 +433,23 @@ class Driver:
                 pg = rng.choice(["assay", "lith", "geochem"]) if rng.random() < 0.7 else f"t{k}"
             if pg in hm["tables"]:
                 pg = f"{pg}_{k}"
+            while pg in hm["tables"]:  # e.g. the empty group a refused add left behind: never re-used as a new table
+                pg += "x"
+            if n == 0 and any(nloc(t) == 0 and t["kind"] == ("interval" if interval else "depth") for t in hm["tables"].values()):
+                n = 1  # two zero-length tables of one hole are trivially collocated: the library files new data under the first
             base = 100.0 * (k + 1)
-            vals = m.fresh(n, rng)
+            dkind = kind_of_name(nm)
+            vals = m.fresh(n, rng, kind=dkind)
+            rec.see("data-kind:" + dkind)
             if n == 0:
                 rec.see("zero-length-arrays")
             try:
                 if interval:
                     ft = np.c_[base + np.arange(n), base + np.arange(n) + 0.5]
-                    h.add_data({nm: {"from-to": ft, "values": vals.copy()}}, property_group=pg)
+                    h.add_data({nm: {"from-to": ft, **spec_for(vals, dkind)}}, property_group=pg)
                 else:
                     dep = base + np.arange(n) + 0.25
-                    h.add_data({nm: {"depth": dep, "values": vals.copy()}}, property_group=pg)
+                    h.add_data({nm: {"depth": dep, **spec_for(vals, dkind)}}, property_group=pg)
             except Exception as exc:  # noqa: BLE001
                 self.refuse(kind, exc)
                 self.resync(u)
@@ -432,11 +482,13 @@ class Driver:
             if not free:
                 return False
             n = nloc(t)
-            short_by = 1 if n > 1 and rng.random() < 0.25 else 0
             nm = rng.choice(free)
-            vals = m.fresh(n - short_by, rng)
+            dkind = kind_of_name(nm)
+            short_by = 1 if n > 1 and dkind == "float" and rng.random() < 0.25 else 0
+            vals = m.fresh(n - short_by, rng, kind=dkind)
+            rec.see("data-kind:" + dkind)
             try:
-                h.add_data({nm: {"values": vals.copy()}}, property_group=pg)
+                h.add_data({nm: spec_for(vals, dkind)}, property_group=pg)
             except Exception as exc:  # noqa: BLE001
                 self.refuse(kind, exc)
                 self.resync(u)
@@ -451,7 +503,7 @@ class Driver:
                 return False
             pg, nm = rng.choice(props)
             old = hm["tables"][pg]["props"][nm]
-            vals = m.fresh(len(old), rng)
+            vals = m.fresh(len(old), rng, kind=kind_of_values(old))
             d = self.data(u, nm)
             try:
                 d.values = vals.copy()
@@ -464,7 +516,12 @@ class Driver:
             if not props:
                 return False
             pg, nm = rng.choice(props)
-            new = rng.choice([p for p in POOL + ["Ren1", "Ren2", "Ren3"] if p not in m.names(u)])
+            # the new name keeps the primitive type its prefix stands for (concatenated arrays are keyed by name across holes)
+            dkind = kind_of_name(nm)
+            cands = [p for p in self.pool(hm["tables"][pg].get("k", 0)) + [f"R{dkind[0]}{i}" for i in range(1, 4)] if kind_of_name(p) == dkind and p not in m.names(u)]
+            if not cands:
+                return False
+            new = rng.choice(cands)
             d = self.data(u, nm)
             try:
                 d.name = new
